@@ -174,6 +174,19 @@ def check_script(script, rec, rng, nsched):
                 if variant:
                     override = {k: (v + 1.25 if isinstance(v, float) else v)
                                 for k, v in backends.initial_context(script).items()}
+                    # the perturbed state takes other branches: whether the program is alias-sensitive (an element
+                    # write to an array that a plain copy made reachable under a second name) is decided per state
+                    try:
+                        from vf.rseq import RSeq as _RSeq
+                        rs2 = _RSeq(dict(script, state={k: (v + 1.25 if isinstance(v, float) else v)
+                                                        for k, v in script["state"].items()}))
+                        rs2.step()
+                        if rs2.alias_sensitive:
+                            rec.count("perturbed_states_left_out_as_alias_sensitive")
+                            break
+                    except Undefined:
+                        rec.count("perturbed_states_without_defined_reference")
+                        break
                 base = None
                 for si, order in enumerate(scheds):
                     drv = backends.StepDriver(dag, script, funcs, state_override=override)
